@@ -278,54 +278,92 @@ def worker_main(a):
     add_deps_path()
     t0 = time.time()
     res = {"ok": False}
+    inflight = a.out + ".inflight"
+    ckpt = a.out + ".ckpt"
     try:
+        redirect_repo()
+        finder = None
+        if os.environ.get("VF_ASAN_DIR"):
+            from . import asan as _asan
+            finder = _asan.install_finder()
         mod = load_prop(a.id)
         ctx = Ctx(a.id, a.tier, a.seed)
         ctx.home = home
         hashes_nt = set()
         hashes_all = set()
         samples = []
-        n = 0
-        fixed = []
-        if a.shard == 0 and hasattr(mod, "fixed_cases"):
-            fixed = list(mod.fixed_cases(a.tier))
+        state = {"n": 0, "last_ckpt": time.time(), "nviol": 0}
+
+        def result(ok=True, **extra):
+            r = {"ok": ok, "evaluations": state["n"], "hashes_nt": sorted(hashes_nt), "n_distinct_all": len(hashes_all),
+                 "monitors": dict(ctx.monitors), "classes": dict(ctx.classes), "margins": ctx.margins,
+                 "violations": ctx.violations, "viol_counts": dict(ctx.viol_counts), "skips": dict(ctx.skips),
+                 "samples": samples, "notes": ctx.notes, "wall_s": time.time() - t0}
+            r.update(extra)
+            return r
+
+        def before(tag, case):
+            with open(inflight, "w") as f:
+                f.write(jdump({"tag": tag, "case": case}))
+
+        def after():
+            nv = sum(ctx.viol_counts.values())
+            if nv != state["nviol"] or time.time() - state["last_ckpt"] > 2.0:
+                state["nviol"] = nv
+                state["last_ckpt"] = time.time()
+                with open(ckpt + ".tmp", "w") as f:
+                    f.write(jdump(result()))
+                os.replace(ckpt + ".tmp", ckpt)
+
         if hasattr(mod, "worker_init"):
             mod.worker_init(ctx)
-        todo = [("fixed", i, c) for i, c in enumerate(fixed)]
-        k = a.shard
-        stream = iter(())
-        for kind, i, case in todo:
-            nt = run_one(mod, case, ctx)
-            h = case_hash(case)
-            hashes_all.add(h)
-            if nt:
-                hashes_nt.add(h)
-            n += 1
-            if len(samples) < 2:
-                samples.append(jsonable(case))
-        while k < a.cases:
-            if time.time() - t0 > a.timecap:
-                ctx.notes["stopped_by_budget_at_case"] = k
-                break
-            rng = case_rng(a.seed, a.id, k)
-            case = mod.gen_case(rng, a.tier)
-            case = jsonable(case)
-            case["_caseno"] = k
-            nt = run_one(mod, case, ctx)
-            h = case_hash({kk: v for kk, v in case.items() if kk != "_caseno"})
-            hashes_all.add(h)
-            if nt:
-                hashes_nt.add(h)
-            n += 1
-            if len(samples) < 4 and nt:
-                samples.append(case)
-            k += a.nshards
+        if a.replay:
+            rp = json.load(open(a.replay))
+            before("replay", rp["case"])
+            run_one(mod, rp["case"], ctx)
+            state["n"] = 1
+        else:
+            fixed = []
+            if a.shard == 0 and hasattr(mod, "fixed_cases"):
+                fixed = list(mod.fixed_cases(a.tier))
+            for i, case in enumerate(fixed):
+                if i < a.fixed_start:
+                    continue
+                before("fixed:%d" % i, case)
+                nt = run_one(mod, case, ctx)
+                h = case_hash(case)
+                hashes_all.add(h)
+                if nt:
+                    hashes_nt.add(h)
+                state["n"] += 1
+                if len(samples) < 2:
+                    samples.append(jsonable(case))
+                after()
+            k = a.start if a.start >= 0 else a.shard
+            while k < a.cases:
+                if time.time() - t0 > a.timecap:
+                    ctx.notes["stopped_by_budget_at_case"] = k
+                    break
+                rng = case_rng(a.seed, a.id, k)
+                case = mod.gen_case(rng, a.tier)
+                case = jsonable(case)
+                case["_caseno"] = k
+                before("k:%d" % k, case)
+                nt = run_one(mod, case, ctx)
+                h = case_hash({kk: v for kk, v in case.items() if kk != "_caseno"})
+                hashes_all.add(h)
+                if nt:
+                    hashes_nt.add(h)
+                state["n"] += 1
+                if len(samples) < 4 and nt:
+                    samples.append(case)
+                k += a.nshards
+                after()
         if hasattr(mod, "worker_finish"):
             mod.worker_finish(ctx)
-        res = {"ok": True, "evaluations": n, "hashes_nt": sorted(hashes_nt), "n_distinct_all": len(hashes_all),
-               "monitors": dict(ctx.monitors), "classes": dict(ctx.classes), "margins": ctx.margins,
-               "violations": ctx.violations, "viol_counts": dict(ctx.viol_counts), "skips": dict(ctx.skips),
-               "samples": samples, "notes": ctx.notes, "wall_s": time.time() - t0}
+        if finder is not None:
+            ctx.notes["asan_loaded"] = sorted(set(finder.loaded))
+        res = result()
     except Inconclusive as e:
         res = {"ok": False, "inconclusive": str(e)}
     except BaseException:  # noqa
@@ -334,6 +372,9 @@ def worker_main(a):
         shutil.rmtree(home, ignore_errors=True)
     with open(a.out, "w") as f:
         f.write(jdump(res))
+    for fn in (inflight, ckpt):
+        if os.path.exists(fn):
+            os.remove(fn)
     return 0
 
 
@@ -370,39 +411,92 @@ def worker_env():
     return env
 
 
-def spawn_workers(pid, tier, seed, cases, workers, timecap, extra_env=None, tag=""):
+def _signame(rc):
+    try:
+        return signal.Signals(-rc).name if isinstance(rc, int) and rc < 0 else "exit-%s" % rc
+    except ValueError:
+        return "signal%s" % rc
+
+
+def spawn_workers(pid, tier, seed, cases, workers, timecap, extra_env=None, replay=None, mod=None):
+    """Run the shards as subprocesses.  A worker killed by a signal while a case was in flight is a violation for
+    that case (witness = the in-flight case + faulthandler log); the shard is restarted after the fatal case."""
     tmp = tempfile.mkdtemp(prefix="vf_%s_" % pid)
-    procs = []
     env = worker_env()
     if extra_env:
         env.update(extra_env)
-    for s in range(workers):
-        out = os.path.join(tmp, "w%d.json" % s)
-        log = open(os.path.join(tmp, "w%d.log" % s), "w")
-        cmd = [PY, "-X", "faulthandler", "-m", "vf.core", "worker", pid, "--tier", tier, "--seed", str(seed),
-               "--shard", str(s), "--nshards", str(workers), "--cases", str(cases),
-               "--timecap", str(timecap), "--out", out]
-        procs.append((s, out, log, subprocess.Popen(cmd, cwd=ROOT, env=env, stdout=log, stderr=subprocess.STDOUT)))
     results = []
     watchdog = timecap * 3 + 300
     t0 = time.time()
-    for s, out, log, p in procs:
+
+    def launch(s, start=-1, fixed_start=0, gen=0):
+        out = os.path.join(tmp, "w%d_%d.json" % (s, gen))
+        log = open(os.path.join(tmp, "w%d_%d.log" % (s, gen)), "w")
+        cmd = [PY, "-X", "faulthandler", "-m", "vf.core", "worker", pid, "--tier", tier, "--seed", str(seed),
+               "--shard", str(s), "--nshards", str(workers), "--cases", str(cases), "--timecap", str(timecap),
+               "--out", out, "--start", str(start), "--fixed-start", str(fixed_start)]
+        if replay:
+            cmd += ["--replay", replay]
+        return dict(s=s, out=out, log=log, gen=gen, p=subprocess.Popen(cmd, cwd=ROOT, env=env, stdout=log, stderr=subprocess.STDOUT))
+
+    active = [launch(s) for s in range(workers)]
+    while active:
+        w = active.pop(0)
         try:
-            rc = p.wait(timeout=max(5, watchdog - (time.time() - t0)))
+            rc = w["p"].wait(timeout=max(5, watchdog - (time.time() - t0)))
         except subprocess.TimeoutExpired:
-            p.kill()
+            w["p"].kill()
             rc = "watchdog"
-        log.close()
-        logtxt = open(log.name).read()[-4000:]
-        if os.path.exists(out):
-            r = json.load(open(out))
+        w["log"].close()
+        fulllog = open(w["log"].name).read()
+        logtxt = fulllog[-6000:]
+        if os.path.exists(w["out"]):
+            r = json.load(open(w["out"]))
+            r["shard"] = w["s"]
+            r["rc"] = rc
+            if not r.get("ok") and "log" not in r:
+                r["log"] = logtxt
+            results.append(r)
+            continue
+        infl = w["out"] + ".inflight"
+        ck = w["out"] + ".ckpt"
+        if rc != "watchdog" and os.path.exists(infl):
+            info = json.load(open(infl))
+            part = json.load(open(ck)) if os.path.exists(ck) else {
+                "ok": True, "evaluations": 0, "hashes_nt": [], "monitors": {}, "classes": {}, "margins": {}, "violations": [],
+                "viol_counts": {}, "skips": {}, "samples": [], "notes": {}}
+            hint = ""
+            if mod is not None and hasattr(mod, "crash_hint"):
+                try:
+                    hint = ":" + mod.crash_hint(info["case"])
+                except Exception:  # noqa
+                    hint = ""
+            key = "crash:%s%s" % (_signame(rc), hint)
+            if "AddressSanitizer" in fulllog:
+                from . import asan as _asan
+                ak = _asan.classify_log(fulllog)
+                if ak:
+                    key = ak
+                    i0 = fulllog.find("ERROR: AddressSanitizer")
+                    logtxt = fulllog[i0:i0 + 3500]
+            part["violations"].append({"key": key, "what": "the process died (%s) while executing this in-domain case" % _signame(rc),
+                                       "detail": {"faulthandler": logtxt[-2500:]}, "case": info["case"]})
+            part["viol_counts"][key] = part["viol_counts"].get(key, 0) + 1
+            part["monitors"]["worker_deaths"] = part["monitors"].get("worker_deaths", 0) + 1
+            part["evaluations"] += 1
+            part["shard"] = w["s"]
+            part["rc"] = rc
+            results.append(part)
+            tag = info["tag"]
+            if w["gen"] < 8 and not replay:
+                if tag.startswith("fixed:"):
+                    active.append(launch(w["s"], fixed_start=int(tag[6:]) + 1, gen=w["gen"] + 1))
+                elif tag.startswith("k:"):
+                    active.append(launch(w["s"], start=int(tag[2:]) + workers, fixed_start=10 ** 9, gen=w["gen"] + 1))
+            elif not replay:
+                results.append({"ok": False, "inconclusive": "shard %d died more than 8 times; giving up on it" % w["s"], "shard": w["s"]})
         else:
-            r = {"ok": False, "died": True, "rc": rc, "log": logtxt}
-        r["shard"] = s
-        r["rc"] = rc
-        if not r.get("ok") and "log" not in r:
-            r["log"] = logtxt
-        results.append(r)
+            results.append({"ok": False, "died": True, "rc": rc, "log": logtxt, "shard": w["s"]})
     shutil.rmtree(tmp, ignore_errors=True)
     return results
 
@@ -552,21 +646,8 @@ def check_main(a):
         return 2
     mod = load_prop(pid)
     if a.replay:
-        rp = json.load(open(a.replay))
-        home = tempfile.mkdtemp(prefix="vfhome_")
-        os.environ["HOME"] = home
-        try:
-            ctx = Ctx(pid, tier, rp.get("seed", seed))
-            ctx.home = home
-            if hasattr(mod, "worker_init"):
-                mod.worker_init(ctx)
-            run_one(mod, rp["case"], ctx)
-        finally:
-            shutil.rmtree(home, ignore_errors=True)
-        r = {"ok": True, "evaluations": 1, "hashes_nt": [], "monitors": dict(ctx.monitors), "classes": dict(ctx.classes),
-             "margins": ctx.margins, "violations": ctx.violations, "viol_counts": dict(ctx.viol_counts),
-             "skips": dict(ctx.skips), "samples": [], "notes": ctx.notes, "shard": 0}
-        return aggregate(pid, mod, tier, seed, [r], t0, replay=True)
+        results = spawn_workers(pid, tier, seed, 1, 1, 600, replay=os.path.abspath(a.replay), mod=mod)
+        return aggregate(pid, mod, tier, seed, results, t0, replay=True)
     cfg = dict(getattr(mod, "QUICK" if tier == "quick" else "THOROUGH"))
     if a.cases:
         cfg["cases"] = a.cases
@@ -574,13 +655,39 @@ def check_main(a):
         cfg["workers"] = a.workers
     if a.timecap:
         cfg["timecap"] = a.timecap
-    results = spawn_workers(pid, tier, seed, cfg["cases"], cfg.get("workers", 2), cfg.get("timecap", 60))
+    results = spawn_workers(pid, tier, seed, cfg["cases"], cfg.get("workers", 2), cfg.get("timecap", 60), mod=mod)
     extra = None
+    if getattr(mod, "ASAN_MODULES", None) and (tier in getattr(mod, "ASAN_TIERS", ("thorough",)) or os.environ.get("VF_ASAN_FORCE")):
+        from . import asan as _asan
+        acfg = dict(getattr(mod, "ASAN", {}))
+        try:
+            tb = time.time()
+            adir = _asan.build(list(mod.ASAN_MODULES))
+            build_s = time.time() - tb
+            try:
+                ares = spawn_workers(pid, tier, seed, acfg.get("cases", max(50, cfg["cases"] // 20)), acfg.get("workers", 8),
+                                     acfg.get("timecap", 300), extra_env=_asan.worker_env(adir), mod=mod)
+            finally:
+                shutil.rmtree(adir, ignore_errors=True)
+            loaded = sorted(set(sum([r.get("notes", {}).get("asan_loaded", []) for r in ares], [])))
+            extra = {"asan": {"modules_built": list(mod.ASAN_MODULES), "modules_loaded_instrumented": loaded,
+                              "cases_run": sum(r.get("evaluations", 0) for r in ares), "build_s": round(build_s, 1),
+                              "reports": sum(1 for r in ares for v in r.get("violations", []) if v["key"].startswith("asan:"))}}
+            for r in ares:
+                r.setdefault("notes", {}).pop("asan_loaded", None)
+                if r.get("ok"):
+                    r.setdefault("monitors", {})["asan_cases"] = r.get("evaluations", 0)
+            if not loaded:
+                ares.append({"ok": False, "inconclusive": "ASan pass loaded no instrumented module", "shard": "asan"})
+            results.extend(ares)
+        except Inconclusive as e:
+            results.append({"ok": False, "inconclusive": "ASan engine: %s" % e, "shard": "asan"})
     if hasattr(mod, "parent_extra"):
         # optional extra engines (ASan pass, suite-under-contracts) run by the parent
         try:
-            extra_results, extra = mod.parent_extra(tier, seed, cfg)
+            extra_results, extra2 = mod.parent_extra(tier, seed, cfg)
             results.extend(extra_results)
+            extra = dict(extra or {}, **(extra2 or {}))
         except Inconclusive as e:
             results.append({"ok": False, "inconclusive": "extra engine: %s" % e, "shard": "extra"})
     return aggregate(pid, mod, tier, seed, results, t0, extra=extra)
@@ -606,6 +713,9 @@ def main():
     w.add_argument("--cases", type=int, default=10)
     w.add_argument("--timecap", type=float, default=60)
     w.add_argument("--out", required=True)
+    w.add_argument("--start", type=int, default=-1)
+    w.add_argument("--fixed-start", type=int, default=0, dest="fixed_start")
+    w.add_argument("--replay")
     a = ap.parse_args()
     if a.cmd == "setup":
         try:
